@@ -91,6 +91,17 @@ def lin(e, w, depth=0):
         for c in consts: kk *= _signed(c.as_long(), w)
         l = lin(rest[0], w, depth + 1)
         return None if l is None else _scale(l, kk)
+    if k in (z3.Z3_OP_BSDIV, z3.Z3_OP_BSDIV_I, z3.Z3_OP_BUDIV, z3.Z3_OP_BUDIV_I) and z3.is_bv_value(ch[1]):
+        # exact division: every coefficient and the constant are multiples of the divisor and the dividend provably does not wrap,
+        # so x = C*y over the integers and x / C = y (no rounding involved)
+        signed = k in (z3.Z3_OP_BSDIV, z3.Z3_OP_BSDIV_I)
+        C = _signed(ch[1].as_long(), w) if signed else ch[1].as_long()
+        l = lin(ch[0], w, depth + 1)
+        if l is None or C <= 0: return None
+        lo_lim, hi_lim = (-(1 << (w - 1)), (1 << (w - 1)) - 1) if signed else (0, (1 << w) - 1)
+        if not (lo_lim <= l.lo and l.hi <= hi_lim): return None
+        if l.c0 % C != 0 or any(c % C != 0 for leaf, c, llo, lhi in l.terms.values()): return None
+        return Lin(l.c0 // C, {key: (leaf, c // C, llo, lhi) for key, (leaf, c, llo, lhi) in l.terms.items()})
     if k == z3.Z3_OP_BSHL and z3.is_bv_value(ch[1]) and ch[1].as_long() < w:
         l = lin(ch[0], w, depth + 1)
         return None if l is None else _scale(l, 1 << ch[1].as_long())
